@@ -490,6 +490,45 @@ theorem normalize4_of_small (q : Q4 ℝ) (h : allClose0 [q.w, q.x, q.y, q.z] = t
   have e0 : eqZero (0 : ℝ) = true := (eqZero_iff _).mpr rfl
   simp only [Brax.normalize4, hn, e0, if_true, zero_add]
 
+/-- **bridge**: `quat_rot_axis` -/
+theorem bridge_quatRotAxis (a : V3 ℝ) (θ : ℝ) : Gen.quatRotAxis a θ = Brax.quatRotAxis a θ := rfl
+
+/-- **bridge**: the generated `safe_norm` (quaternion shape) is the hand model -/
+theorem bridge_safeNorm4 (q : Q4 ℝ) : Gen.safeNorm4 q = Brax.safeNorm4 q := by
+  simp only [Gen.safeNorm4, isclose_comp_iff]
+  have hcond : ((decide (absv q.w ≤ (1e-8 : ℝ)) && decide (absv q.x ≤ (1e-8 : ℝ))
+      && decide (absv q.y ≤ (1e-8 : ℝ))) && decide (absv q.z ≤ (1e-8 : ℝ)))
+      = allClose0 [q.w, q.x, q.y, q.z] := by
+    simp [allClose0, List.all_cons, Bool.and_assoc]
+  rw [hcond]
+  by_cases hz : allClose0 [q.w, q.x, q.y, q.z] = true
+  · simp [Brax.safeNorm4, safeNormL, hz]
+  · have hz' : allClose0 [q.w, q.x, q.y, q.z] = false := by simpa using hz
+    simp only [Brax.safeNorm4, safeNormL, hz', Bool.false_eq_true, if_false, List.foldl, mul_one,
+      add_zero, sub_zero, zero_add]
+
+/-- **bridge**: 3-vector `safe_norm` -/
+theorem bridge_safeNorm3 (v : V3 ℝ) : Gen.safeNorm3 v = Brax.safeNorm3 v := by
+  simp only [Gen.safeNorm3, isclose_comp_iff]
+  have hcond : ((decide (absv v.x ≤ (1e-8 : ℝ)) && decide (absv v.y ≤ (1e-8 : ℝ)))
+      && decide (absv v.z ≤ (1e-8 : ℝ))) = allClose0 [v.x, v.y, v.z] := by
+    simp [allClose0, List.all_cons, Bool.and_assoc]
+  rw [hcond]
+  by_cases hz : allClose0 [v.x, v.y, v.z] = true
+  · simp [Brax.safeNorm3, safeNormL, hz]
+  · have hz' : allClose0 [v.x, v.y, v.z] = false := by simpa using hz
+    simp only [Brax.safeNorm3, safeNormL, hz', Bool.false_eq_true, if_false, List.foldl, mul_one,
+      add_zero, sub_zero, zero_add]
+
+/-- `safe_norm` is the Euclidean norm outside the `allclose` ball and 0 inside -/
+theorem safeNorm3_eq (v : V3 ℝ) :
+    Gen.safeNorm3 v = if allClose0 [v.x, v.y, v.z] then 0 else Real.sqrt (v.x * v.x + v.y * v.y + v.z * v.z) := by
+  rw [bridge_safeNorm3]
+  by_cases hz : allClose0 [v.x, v.y, v.z] = true
+  · simp [Brax.safeNorm3, safeNormL, hz]
+  · have hz' : allClose0 [v.x, v.y, v.z] = false := by simpa using hz
+    simp only [Brax.safeNorm3, safeNormL, hz', Bool.false_eq_true, if_false, List.foldl, HasSqrt.sqrt, zero_add]
+
 end Normalize
 
 end Brax.C09
